@@ -2,7 +2,7 @@
 # Runs, for every seeded property-breaking change in seeded/<id>/ (scratch copy of /repo under ${VERIF_SCRATCH:-/var/tmp},
 # removed afterwards), the checks named in its meta.json (its property and every Cnn mentioned under detected_by).
 # Every seeded change must be reported by at least one of them.  /repo itself is never touched.
-# usage: selftest/run_seeded.sh [jobs] [seeded-dir ...]
+# usage: [OWN=1] selftest/run_seeded.sh [jobs] [seeded-dir ...]   (OWN=1: only the check of the seeded property itself)
 V=$(cd "$(dirname "$0")/.." && pwd)
 jobs=${1:-4}; shift
 one() {
@@ -13,7 +13,9 @@ one() {
   checks=$(python3 -c "
 import json,re,sys
 m=json.load(open('$d/meta.json')); s=set([m['property']])
-for x in m.get('detected_by',[]): s|=set(re.findall(r'\bC\d\d\b',x))
+import os
+if not os.environ.get('OWN'):
+    for x in m.get('detected_by',[]): s|=set(re.findall(r'\bC\d\d\b',x))
 print(' '.join(sorted(s)))")
   out=$(for c in $checks; do VERIF_REPO=$base VERIF_SECOND_PASS=seeded-$name "$V/check" $c 2>&1; done)
   rm -rf "$base"
